@@ -50,28 +50,38 @@ Fixpoint starts (p s : text) : option text :=                  (* Some rest when
 
 Definition no_quote (s : text) : bool := forallb (fun c => negb ((c =? 39) || (c =? 34))) s.
 
-(* does the noqa regex (hash noqa, optionally colon-space and a run of non-quote characters,
-   then end of line) match at the start of s?  Some None = bare noqa,
-   Some (Some codes) = the text after the colon and space *)
-Definition at_noqa (s : text) : option (option text) :=
+(* does the regex (hash noqa, then a run of non-quote characters up to the end of the line)
+   match at the start of s?  The match is then all of s. *)
+Definition at_noqa (s : text) : option text :=
   match starts noqa_lit s with
+  | Some rest => if no_quote rest then Some s else None
   | None => None
-  | Some [] => Some None
-  | Some rest =>
-      match starts [58; 32] rest with
-      | Some codes => if no_quote codes then Some (Some codes) else None
-      | None => None
-      end
   end.
 
-(* re.search: the leftmost position where it matches *)
-Fixpoint search (s : text) : option (option text) :=
+(* re.search: the leftmost position where it matches; the result is group() *)
+Fixpoint search (s : text) : option text :=
   match at_noqa s with
   | Some r => Some r
   | None => match s with [] => None | _ :: r => search r end
   end.
 
-(* error_codes[2:] with commas turned into spaces, split at single spaces *)
+(* str.split("#") *)
+Fixpoint split_hash (s : text) : list text :=
+  match s with
+  | [] => [[]]
+  | c :: r => if c =? 35 then [] :: split_hash r
+              else match split_hash r with h :: t => (c :: h) :: t | [] => [[c]] end
+  end.
+
+Fixpoint lstrip (s : text) : text :=
+  match s with
+  | [] => []
+  | c :: r => if is_space c then lstrip r else s
+  end.
+
+Definition strip (s : text) : text := lstrip (rstrip s).
+
+(* codes.replace(",", " ").split(" ") *)
 Fixpoint split_sp (s : text) : list text :=
   match s with
   | [] => [[]]
@@ -81,11 +91,25 @@ Fixpoint split_sp (s : text) : list text :=
 
 Definition text_eqb (a b : text) : bool := list_eqb N.eqb a b.
 
+Definition noqa_word : text := [110; 111; 113; 97].             (* n o q a *)
+Definition noqa_colon : text := [110; 111; 113; 97; 58; 32].    (* n o q a colon space *)
+
+(* one comment of the line (already stripped): bare `noqa` silences every code,
+   `noqa: A, B` the listed ones, anything else nothing *)
+Definition comment_ignores (code : text) (c : text) : bool :=
+  text_eqb c noqa_word ||
+  match starts noqa_colon c with
+  | Some codes => existsb (text_eqb code) (split_sp codes)
+  | None => false
+  end.
+
+Definition verdict (code : text) (tail : text) : bool :=
+  existsb (fun c => comment_ignores code (strip c)) (split_hash tail).
+
 Definition ignored_on_line (line : text) (code : text) : bool :=
   match search (rstrip line) with
   | None => false
-  | Some None => true
-  | Some (Some codes) => existsb (text_eqb code) (split_sp codes)
+  | Some tail => verdict code tail
   end.
 
 (* is_ignored_via_comment: the line the diagnostic names (1-based); None = IndexError *)
@@ -103,6 +127,16 @@ Definition ignored_via_comment (content : text) (line : nat) (code : text) : opt
 Close Scope N_scope.
 
 (* ---- theorems ---- *)
+
+Lemma starts_app (p s : text) : starts p (p ++ s) = Some s.
+Proof. induction p as [|a p IH]; [destruct s; reflexivity|]. simpl. now rewrite N.eqb_refl. Qed.
+
+Lemma starts_spec (p s r : text) : starts p s = Some r -> s = p ++ r.
+Proof.
+  revert s. induction p as [|a p IH]; intros s H; [destruct s; inversion H; reflexivity|].
+  destruct s as [|b s]; [discriminate|]. simpl in H. destruct (N.eqb_spec a b) as [->|]; [|discriminate].
+  simpl. f_equal. now apply IH.
+Qed.
 
 (* the first match wins: nothing inside a prefix that cannot start a match matters *)
 Lemma search_skip (p s : text) :
@@ -131,7 +165,7 @@ Proof.
   apply at_noqa_hash in E' as (r & Hr).
   assert (Hin : In 35%N p).
   { rewrite skipn_app in Hr. replace (k - length p) with 0 in Hr by lia. simpl in Hr.
-    destruct (skipn k p) as [|x t] eqn:Es.
+    destruct (skipn k p) as [|x t'] eqn:Es.
     - apply (f_equal (@List.length N)) in Es. rewrite skipn_length in Es. simpl in Es. lia.
     - simpl in Hr. inversion Hr; subst. rewrite <- (firstn_skipn k p). apply in_or_app. right. rewrite Es. now left. }
   unfold no_hash in Hp. rewrite forallb_forall in Hp. specialize (Hp _ Hin). discriminate.
@@ -143,11 +177,78 @@ Theorem noqa_is_local (c1 c2 : text) (line : nat) (code : text) :
   ignored_via_comment c1 line code = ignored_via_comment c2 line code.
 Proof. destruct line as [|k]; [reflexivity|]. simpl. intros ->. reflexivity. Qed.
 
-(* a listed code is suppressed iff it is one of the tokens *)
-Theorem noqa_codes_exact (line codes code : text) :
-  search (rstrip line) = Some (Some codes) ->
-  ignored_on_line line code = existsb (text_eqb code) (split_sp codes).
-Proof. unfold ignored_on_line. intros ->. reflexivity. Qed.
+(* what is found is the rest of the line from a hash-noqa on, and it holds no quote *)
+Lemma search_is_suffix (s t : text) : search s = Some t ->
+  exists p rest, s = p ++ t /\ t = noqa_lit ++ rest /\ no_quote rest = true.
+Proof.
+  induction s as [|c r IH]; intros H.
+  - discriminate.
+  - cbn [search] in H. destruct (at_noqa (c :: r)) as [u|] eqn:E.
+    + inversion H; subst u. unfold at_noqa in E. destruct (starts noqa_lit (c :: r)) as [rest|] eqn:Es; [|discriminate].
+      destruct (no_quote rest) eqn:Q; [|discriminate]. inversion E; subst t.
+      exists [], rest. repeat split; [now apply starts_spec|exact Q].
+    + destruct (IH H) as (p & rest & -> & Ht & Q). exists (c :: p), rest. repeat split; assumption.
+Qed.
 
-Theorem noqa_bare_all (line code : text) : search (rstrip line) = Some None -> ignored_on_line line code = true.
-Proof. unfold ignored_on_line. intros ->. reflexivity. Qed.
+(* a diagnostic is suppressed exactly when one of the comments from the first hash-noqa on is a bare
+   noqa or a noqa that lists its code *)
+Theorem ignored_iff (line code : text) :
+  ignored_on_line line code = true <->
+  exists tail c, search (rstrip line) = Some tail /\ In c (split_hash tail) /\
+    (strip c = noqa_word \/ exists codes, strip c = noqa_colon ++ codes /\ In code (split_sp codes)).
+Proof.
+  unfold ignored_on_line, verdict. split.
+  - destruct (search (rstrip line)) as [tail|]; [|discriminate]. intros H.
+    apply existsb_exists in H as (c & Hin & Hc). exists tail, c. repeat split; [assumption|].
+    unfold comment_ignores in Hc. apply orb_true_iff in Hc as [Hc|Hc].
+    + left. unfold text_eqb in Hc. now apply (list_eqb_spec N.eqb N.eqb_eq) in Hc.
+    + right. destruct (starts noqa_colon (strip c)) as [codes|] eqn:Es; [|discriminate].
+      exists codes. split; [now apply starts_spec|].
+      apply existsb_exists in Hc as (x & Hx & Hxe). unfold text_eqb in Hxe.
+      apply (list_eqb_spec N.eqb N.eqb_eq) in Hxe. now subst x.
+  - intros (tail & c & -> & Hin & Hc). apply existsb_exists. exists c. split; [assumption|].
+    unfold comment_ignores. destruct Hc as [->|(codes & -> & Hcode)]; [reflexivity|].
+    rewrite starts_app. apply orb_true_iff. right. apply existsb_exists. exists code. split; [assumption|].
+    unfold text_eqb. now apply (list_eqb_spec N.eqb N.eqb_eq).
+Qed.
+
+(* ---- str.split on the hash sign ---- *)
+Lemma split_hash_nonempty s : split_hash s <> [].
+Proof. destruct s as [|c r]; simpl; [discriminate|]. destruct (c =? 35)%N; [discriminate|]. destruct (split_hash r); discriminate. Qed.
+
+Lemma split_hash_app (a b : text) : split_hash (a ++ 35%N :: b) = split_hash a ++ split_hash b.
+Proof.
+  induction a as [|c r IH]; [reflexivity|]. cbn [app split_hash]. rewrite IH.
+  destruct (c =? 35)%N; [reflexivity|].
+  destruct (split_hash r) as [|h t'] eqn:E; [now apply split_hash_nonempty in E|]. reflexivity.
+Qed.
+
+Lemma split_hash_no_hash (w : text) : no_hash w = true -> split_hash w = [w].
+Proof.
+  induction w as [|c r IH]; [reflexivity|]. intros H. cbn [no_hash forallb] in H. apply andb_true_iff in H as [Hc Hr].
+  cbn [split_hash]. apply negb_true_iff in Hc. rewrite Hc, (IH Hr). reflexivity.
+Qed.
+
+Fixpoint map_last {A} (g : A -> A) (l : list A) : list A :=
+  match l with
+  | [] => []
+  | [x] => [g x]
+  | x :: r => x :: map_last g r
+  end.
+
+Lemma split_hash_app_no_hash (a w : text) : no_hash w = true ->
+  split_hash (a ++ w) = map_last (fun c => c ++ w) (split_hash a).
+Proof.
+  intros Hw. induction a as [|c r IH]; [simpl; now apply split_hash_no_hash|].
+  cbn [app split_hash]. rewrite IH. destruct (split_hash r) as [|h t'] eqn:E; [now apply split_hash_nonempty in E|].
+  destruct (c =? 35)%N.
+  - reflexivity.
+  - destruct t'; reflexivity.
+Qed.
+
+Lemma existsb_map_last {A} (f : A -> bool) (g : A -> A) (l : list A) :
+  (forall x, f (g x) = f x) -> existsb f (map_last g l) = existsb f l.
+Proof.
+  intros H. induction l as [|x r IH]; [reflexivity|]. destruct r as [|y r']; [simpl; now rewrite H|].
+  change (map_last g (x :: y :: r')) with (x :: map_last g (y :: r')). cbn [existsb]. now rewrite IH.
+Qed.
